@@ -34,7 +34,14 @@ static std::string rend_json(const Rend &r, const std::string &doc) {
 
 static std::string raw_okp(EVP_PKEY *k, bool priv) { unsigned char b[64]; size_t l = sizeof b; if (priv ? EVP_PKEY_get_raw_private_key(k, b, &l) : EVP_PKEY_get_raw_public_key(k, b, &l)) return std::string((char *)b, l); return ""; }
 
-static std::string compare_keys(const KeySpec &orig, EVP_PKEY *imp, bool priv) {
+static std::string compare_keys(const KeySpec &orig, EVP_PKEY *imp, bool priv, bool swapped = false) {
+  if (orig.kind == K_RSA && swapped && priv) {   // the JWK wrote the primes in the other order: the PEM must hold exactly what the JWK said
+    for (auto n : {OSSL_PKEY_PARAM_RSA_N, OSSL_PKEY_PARAM_RSA_E, OSSL_PKEY_PARAM_RSA_D}) if (pkey_bn(orig.pkey, n) != pkey_bn(imp, n)) return std::string("rsa-component-differs:") + n;
+    if (pkey_bn(imp, OSSL_PKEY_PARAM_RSA_FACTOR1) != pkey_bn(orig.pkey, OSSL_PKEY_PARAM_RSA_FACTOR2) || pkey_bn(imp, OSSL_PKEY_PARAM_RSA_FACTOR2) != pkey_bn(orig.pkey, OSSL_PKEY_PARAM_RSA_FACTOR1)) return "rsa-private-component-differs:p/q(written-with-p<q)";
+    if (pkey_bn(imp, OSSL_PKEY_PARAM_RSA_EXPONENT1) != pkey_bn(orig.pkey, OSSL_PKEY_PARAM_RSA_EXPONENT2) || pkey_bn(imp, OSSL_PKEY_PARAM_RSA_EXPONENT2) != pkey_bn(orig.pkey, OSSL_PKEY_PARAM_RSA_EXPONENT1)) return "rsa-private-component-differs:dp/dq(written-with-p<q)";
+    if (pkey_bn(imp, OSSL_PKEY_PARAM_RSA_COEFFICIENT1) != rsa_swapped_qi(orig.pkey)) return "rsa-private-component-differs:qi(written-with-p<q)";
+    return "";
+  }
   if (orig.kind == K_RSA) {
     const char *pub[] = {OSSL_PKEY_PARAM_RSA_N, OSSL_PKEY_PARAM_RSA_E}; const char *prv[] = {OSSL_PKEY_PARAM_RSA_D, OSSL_PKEY_PARAM_RSA_FACTOR1, OSSL_PKEY_PARAM_RSA_FACTOR2, OSSL_PKEY_PARAM_RSA_EXPONENT1, OSSL_PKEY_PARAM_RSA_EXPONENT2, OSSL_PKEY_PARAM_RSA_COEFFICIENT1};
     for (auto n : pub) if (pkey_bn(orig.pkey, n) != pkey_bn(imp, n) || pkey_bn(imp, n).empty()) return std::string("rsa-public-component-differs:") + n;
@@ -77,12 +84,14 @@ static std::string run_case(const KeySpec &k, const Rend &r, bool *nt = nullptr)
   CURKEY = k; CURR = r;
   JwkOpts o; o.priv = r.priv; o.alg = ALGSTR[r.algk % NALGSTR]; o.kid = KIDS[r.kidk % 6]; o.use = USES[r.usek % 5]; o.key_ops = OPS[r.opsk % 10];
   o.pad = (k.kind == K_OKP || k.kind == K_OCT) ? 0 : r.pad; o.strip = k.kind == K_EC && r.strip; o.okp_priv_with_x = r.okp_x;
+  // the two rendering bits that only EC / OKP keys use mean something else for the other types: RSA primes written with p < q; members with '=' padding
+  o.swap_pq = k.kind == K_RSA && r.priv && r.strip; o.eq_pad = k.kind != K_OKP && !r.okp_x;
   std::string base = jwk_json(k, o);
   std::string foreign = FOREIGN[r.foreignk % NFOREIGN];
   // remove foreign members that the key type owns (statement: members that do not belong to the key type)
   if (!foreign.empty() && !member_conflict(k, foreign).empty()) foreign = "\"zz\":[1,{\"q\":null}]";
   o.extra = foreign; std::string doc = jwk_json(k, o); CURDOC = doc;
-  if (nt) *nt = o.pad > 0 || o.strip || !foreign.empty() || (r.priv && k.kind != K_OCT);
+  if (nt) *nt = o.pad > 0 || o.strip || o.swap_pq || o.eq_pad || !foreign.empty() || (r.priv && k.kind != K_OCT);
   Imported im = import_doc(doc, r.in_set);
   if (!im.ok) return "well-formed-jwk-rejected:" + im.err.substr(0, 60);
   // expected metadata (independent mapping)
@@ -101,7 +110,7 @@ static std::string run_case(const KeySpec &k, const Rend &r, bool *nt = nullptr)
   else {
     if (im.pem.empty()) return "no-pem";
     EVP_PKEY *imp = pem_to_pkey(im.pem, r.priv); if (!imp) return "pem-does-not-parse";
-    std::string c = compare_keys(k, imp, r.priv); EVP_PKEY_free(imp); if (!c.empty()) return c;
+    std::string c = compare_keys(k, imp, r.priv, o.swap_pq); EVP_PKEY_free(imp); if (!c.empty()) return c;
   }
   // metamorphic: foreign members never change the imported key
   if (!foreign.empty()) {
